@@ -374,6 +374,8 @@ PROPS['C06']['bounded'] = ['merge', 'cli_determinism']
 PROPS['C11']['bounded'] = ['topo', 'deps']
 PROPS['C13']['bounded'] = ['tos', 'cli_targetos']
 PROPS['C16']['bounded'] = ['rename']
+PROPS['C01'].setdefault('bounded', []); PROPS['C01']['bounded'] = list(PROPS['C01']['bounded']) + ['cli_extras']
+PROPS['C15']['bounded'] = list(PROPS['C15']['bounded']) + ['cli_extras']
 PROPS['C17']['bounded'] = ['write', 'cli_runs']
 PROPS['C18']['bounded'] = ['kint']
 PROPS['C20']['bounded'] = ['cfg_all', 'cli_config', 'cli_extras']
